@@ -1352,7 +1352,12 @@ class BaseGaussianState(BaseState):
         cutoff = kwargs.get("cutoff", 10)
         mu, cov = self.reduced_gaussian(modes)  # pylint: disable=unused-variable
 
-        if self.is_pure:
+        # the reduced state of a pure state is only pure if the modes are not entangled with the rest
+        reduced_is_pure = (
+            np.abs(np.linalg.det(cov) - (self._hbar / 2) ** (2 * len(modes))) < self.EQ_TOLERANCE
+        )
+
+        if reduced_is_pure:
             psi = twq.state_vector(
                 mu,
                 cov,
